@@ -176,6 +176,15 @@ def run(res, b, tier, seed):
         add("imports", files)
     for src in builtin_near_misses(rng, 500 if quick else 100000):
         add("near-miss", {"a.tsh": src.encode()})
+    # call graphs with many paths to the same function (a diamond chain): every stage must stay polynomial
+    for n_f in ((45,) if quick else (45, 60, 120)):
+        src = "func f0() int {\n\treturn 1\n}\nfunc f1() int {\n\treturn 1\n}\n"
+        for i in range(2, n_f):
+            src += "func f%d() int {\n\treturn f%d() + f%d()\n}\n" % (i, i - 1, i - 2)
+        add("call-dag", {"a.tsh": (src + "print(f%d())\n" % (n_f - 1)).encode()})
+        nest = "x := 1\n" + "".join("\t" * d + "if x == %d {\n" % d for d in range(n_f)) + "\t" * n_f + "print(x)\n" + "".join("\t" * d + "}\n" for d in reversed(range(n_f)))
+        add("deep-nesting", {"a.tsh": nest.encode()})
+        add("long-expression", {"a.tsh": ("x := " + " + ".join(["1"] * (n_f * 20)) + "\nprint(x)\n").encode()})
     add("missing-main", {"other.tsh": b"print(1)\n"})
     add("dir-as-main", {"a.tsh/x": b""})
     pipeline.run_pipe(b, cases, "tasw", timeout=120)
